@@ -187,7 +187,7 @@ def run_impl(case):
             obs["error"], obs["msg"] = 3, "RecursionError"
         except Exception as e:  # anything else is outside the contract
             obs["error"], obs["msg"] = 2, f"{type(e).__name__}: {e}"[:120]
-    obs["draws"] = [[a, v] for a, v in g.log]
+    obs["draws"] = [[a, v] for a, v in (g.log[:40] if obs["error"] in (2, 3) else g.log)]
     obs["warnings"] = []
     obs["other_warnings"] = []
     for w in wl:
